@@ -727,7 +727,7 @@ func (f *e1func) prepare() {
 	for o, n := range assigns {
 		if n == 1 && !addrTaken[o] && defExpr[o] != nil && inl[o] == nil && isBoolType(o.Type()) {
 			switch unparen(defExpr[o]).(type) {
-			case *ast.BinaryExpr, *ast.UnaryExpr:
+			case *ast.BinaryExpr, *ast.UnaryExpr, *ast.CallExpr:
 				f.boolDef[o] = defExpr[o]
 			}
 		}
@@ -2960,6 +2960,28 @@ func solve(st *fstate, clauses []Clause, b Bind) solveResult {
 	}
 	if rb, ru, ok := rec(0, b, nil); ok {
 		return solveResult{ok: true, bind: rb, used: ru}
+	}
+	// "v is defined as E" with v still open is decided last: the other clauses bind v (possibly to E itself, when the code
+	// has no variable for it)
+	{
+		var first, last []Clause
+		for _, cl := range clauses {
+			isOpenDef := len(cl.Alts) == 1 && len(cl.Alts[0]) == 1 && cl.Alts[0][0].S == "def" && len(cl.Alts[0][0].A) >= 2 && hasPV(subst(cl.Alts[0][0].A[0], b))
+			if isOpenDef {
+				last = append(last, cl)
+			} else {
+				first = append(first, cl)
+			}
+		}
+		if len(last) > 0 && len(first) > 0 {
+			saved := clauses
+			clauses = append(append([]Clause{}, first...), last...)
+			rb, ru, ok := rec(0, b, nil)
+			clauses = saved
+			if ok {
+				return solveResult{ok: true, bind: rb, used: ru}
+			}
+		}
 	}
 	// diagnose: first clause that fails on its own (with the sink bindings only)
 	for _, cl := range clauses {
